@@ -106,7 +106,7 @@ class Def:
             for sn, sj in mj.get("states", {}).items():
                 st = {"kind": sj.get("kind", "simple"), "defers": sj.get("defers", []), "flags": sj.get("flags", []),
                       "itab": [parse_irow(r, sn) for r in sj.get("itable", [])], "zone": sj.get("zone", 0),
-                      "event": sj.get("event", ""), "ends": sj.get("ends", []), "ser": sj.get("ser", False)}
+                      "event": sj.get("event", ""), "ends": sj.get("ends", []), "ser": sj.get("ser", False), "defer_if": sj.get("defer_if", {})}
                 m["states"][sn] = st
             self.machines[mn] = m
         # states mentioned only in rows / init get default attributes
@@ -117,7 +117,7 @@ class Def:
             for n in names:
                 if n not in m["states"]:
                     m["states"][n] = {"kind": "sub" if n in self.machines else "simple", "defers": [], "flags": [],
-                                      "itab": [], "zone": 0, "event": "", "ends": [], "ser": False}
+                                      "itab": [], "zone": 0, "event": "", "ends": [], "ser": False, "defer_if": {}}
             for n, st in m["states"].items():
                 if n in self.machines: st["kind"] = "sub"
         self.order = self.topo()
@@ -129,7 +129,8 @@ class Def:
             for sn in self.machines[mn]["states"]:
                 if sn not in self.snames: self.snames.append(sn)
         if self.root not in self.snames: self.snames.append(self.root)
-        self.guards = sorted(set(a for m in self.machines.values() for r in self.all_rows(m) for a in guard_atoms(r["g"])),
+        self.condguards = sorted(set(g for m in self.machines.values() for st in m["states"].values() for g in st.get("defer_if", {}).values()), key=lambda x: int(x[1:]))
+        self.guards = sorted(set(a for m in self.machines.values() for r in self.all_rows(m) for a in guard_atoms(r["g"])) | set(self.condguards),
                              key=lambda x: int(x[1:]))
         self.sticky = sorted(set(a for m in self.machines.values() for r in m["table"] if r["ev"] == "none" for a in guard_atoms(r["g"])),
                              key=lambda x: int(x[1:]))
@@ -198,6 +199,8 @@ def emit_tla(d, modname=None):
            "  flags |-> %s," % tseq(q(f) for f in d.flags),
            "  guards |-> %s," % tset(d.guards),
            "  sticky |-> %s," % tset(d.sticky),
+           "  condguards |-> %s," % tset(d.condguards),
+           "  gidx |-> %s," % tfun({g: int(g[1:]) for g in d.guards}, str),
            "  serial |-> %s," % ("TRUE" if d.serial else "FALSE"),
            "  allstates |-> %s," % tseq(q(sn) for sn in d.snames if sn != d.root),
            "  counted |-> %s," % tset([e for e, ej in d.events.items() if ej.get("kind", "trivial") in ("nontrivial", "throwmove", "selfref")]),
@@ -211,6 +214,7 @@ def emit_tla(d, modname=None):
         s += "      defers |-> %s,\n" % tfun(sts, lambda v: tset(v["defers"]))
         s += "      flags |-> %s,\n" % tfun(sts, lambda v: tset(v["flags"]))
         s += "      ends |-> %s,\n" % tfun(sts, lambda v: tset(v["ends"]))
+        s += "      defcond |-> %s,\n" % tfun(sts, lambda v: "{" + ", ".join("<<%s, %s>>" % (q(e), q(g)) for e, g in v.get("defer_if", {}).items()) + "}")
         s += "      xpev |-> %s,\n" % tfun(sts, lambda v: q(v["event"]))
         s += "      dorder |-> %s,\n" % tseq(q(sn) for sn in sts if sn not in d.machines and sts[sn]["kind"] == "simple")
         s += "      ser |-> %s, selfser |-> %s,\n" % (tset([k for k, v in sts.items() if v.get("ser")]), "TRUE" if m.get("ser") else "FALSE")
@@ -414,7 +418,12 @@ def emit_cpp(d, cfg, opts=None, fe="functor"):
         for sn, st in m["states"].items():
             if st["kind"] == "sub": continue
             t = sname(mn, sn); sid = d.sid(sn)
-            if st["kind"] == "simple":
+            if st["kind"] == "simple" and st.get("defer_if"):
+                # backmp11 conditional deferral: is_event_deferred(event, fsm) decides per occurrence (here: by the guard valuation of the call)
+                conds = " ".join("template <class F> bool is_event_deferred(const %s&, F&) const { return RT::G()[%d]; }" % (e, int(g[1:])) for e, g in st["defer_if"].items())
+                L.append("struct %s : St<%d,%s,%s,%s,%s > { %s template <class E, class F> bool is_event_deferred(const E&, F&) const { return true; } };"
+                         % (t, sid, evlist(st["defers"]), fllist(st["flags"]), irows(st["itab"]), "true" if st.get("ser") else "false", conds))
+            elif st["kind"] == "simple":
                 L.append("typedef St<%d,%s,%s,%s,%s > %s;" % (sid, evlist(st["defers"]), fllist(st["flags"]), irows(st["itab"]), "true" if st.get("ser") else "false", t))
             elif st["kind"] == "explicit":
                 L.append("typedef StX<%d,%d,%s,%s,%s > %s;" % (sid, st["zone"], evlist(st["defers"]), fllist(st["flags"]), irows(st["itab"]), t))
